@@ -17,12 +17,12 @@ ASSUMPTIONS = ["RefMDP interpreter (vlib/mdp.py) is the semantics of the harness
 
 
 def units(tier):
-    return [{"name": n, "timeout": 2400} for n in ("discrete", "masked", "box", "multibinary", "stateful",
+    return [{"name": n, "timeout": 2400} for n in ("discrete", "masked", "box", "box_rescaled", "multibinary", "stateful",
                                                      "multidiscrete", "iteration")]
 
 
 # --------------------------------------------------------------------------------------------
-def _build(ctx, i, kind, masks=False, stub=False):
+def _build(ctx, i, kind, masks=False, stub=False, rescale=False):
     from lerax.wrapper import TimeLimit
     from vlib.mdp import FiniteMDP, RefMDP, random_tables
 
@@ -57,16 +57,27 @@ def _build(ctx, i, kind, masks=False, stub=False):
     kw = dict(trunc=tabs["trunc"], masks=tabs["masks"], kind=kind, nvec=nvec, low=low, high=high)
     env = FiniteMDP(tabs["P"], tabs["R"], tabs["term"], tabs["starts"], box_dim=int(rng.integers(1, 3)), **kw)
     ref = RefMDP(tabs["P"], tabs["R"], tabs["term"], tabs["starts"], time_limit=tl, **kw)
+    if kind == "box" and rescale:
+        # an action wrapper between the algorithm and the MDP: the algorithm must clip to the *wrapper's*
+        # advertised box (-1, 1); the wrapper then maps affinely onto the MDP's own bounds
+        from lerax.wrapper import RescaleAction
+
+        env = RescaleAction(env)
+        ref.outer = (-1.0, 1.0)
     if tl is not None:
         env = TimeLimit(env, tl)
     return env, ref, tabs, tl
 
 
 def _unwrap(env_state, tl):
-    """-> (FState arrays, step_count or None)"""
+    """-> (FState arrays, step_count or None); further wrapper states (e.g. RescaleAction) are peeled off"""
+    cnt = None
     if tl is not None:
-        return env_state.env_state, np.asarray(env_state.step_count)
-    return env_state, None
+        cnt = np.asarray(env_state.step_count)
+        env_state = env_state.env_state
+    while not hasattr(env_state, "s"):
+        env_state = env_state.env_state
+    return env_state, cnt
 
 
 def _judge_stream(ctx, tag, ref, tl, gamma, st_in, st_out, buf, ev_values, ev_logp, boot_v, pol_n_in, pol_n_out,
@@ -114,14 +125,20 @@ def _judge_stream(ctx, tag, ref, tl, gamma, st_in, st_out, buf, ev_values, ev_lo
             bad("stored-logprob-not-of-stored-action",
                 {"stored": lps[k], "re-evaluated": evl[k], "ratio": float(np.exp(float(evl[k]) - float(lps[k]))),
                  "action": act[k]})
-        a_exec = ref.clip(act[k])
+        outer = getattr(ref, "outer", None)
+        if outer is not None:
+            a_out = np.clip(np.asarray(act[k], np.float32), np.float32(outer[0]), np.float32(outer[1]))
+            a_exec = (np.float32(ref.low) + (a_out - np.float32(outer[0])) * np.float32((ref.high - ref.low) / (outer[1] - outer[0]))).astype(np.float32)
+        else:
+            a_exec = ref.clip(act[k])
         if ref.kind == "box":
             a32 = np.asarray(act[k], np.float32)
+            blo, bhi = (outer if outer is not None else (ref.low, ref.high))
             # outside the bounds, or sitting exactly on a bound (probability zero for an unclipped sample)
-            if np.any(a32 <= np.float32(ref.low)) or np.any(a32 >= np.float32(ref.high)):
+            if np.any(a32 <= np.float32(blo)) or np.any(a32 >= np.float32(bhi)):
                 n_clip += 1
                 ctx.monitor("samples_needing_clipping")
-            if not np.array_equal(a_exec, a32):
+            if np.any(a32 < np.float32(blo)) or np.any(a32 > np.float32(bhi)):
                 ctx.monitor("stored_actions_outside_bounds")
         ns, r, term, trunc = ref.step(s, t_ep, a_exec)
         if bool(done[k]) != (term or trunc):
@@ -132,7 +149,7 @@ def _judge_stream(ctx, tag, ref, tl, gamma, st_in, st_out, buf, ev_values, ev_lo
         tol = 2e-5 + 1e-4 * abs(want)
         if abs(float(rew[k]) - want) > tol:
             alt_both = r + gamma * float(bv[k])
-            r_unclipped = ref.reward(s, act[k]) if ref.kind == "box" else r
+            r_unclipped = ref.reward(s, act[k]) if (ref.kind == "box" and outer is None) else r
             if term and trunc and abs(float(rew[k]) - alt_both) <= tol:
                 bad("bootstrap-added-on-true-termination", {"got": rew[k], "want": want, "gammaV": gamma * float(bv[k])})
             elif boot and abs(float(rew[k]) - r) <= tol:
@@ -240,7 +257,12 @@ def _collect_and_judge(ctx, tag, algo, env, ref, tl, pol, E, i, info, via_iterat
         flat_act = acts.reshape((flat_obs.shape[0],) + acts.shape[len(shp):])
         for j in range(flat_obs.shape[0]):
             sj = int(np.argmax(flat_obs[j]))
-            succ.reshape(-1)[j] = int(ref.P[sj, ref.a_index(ref.clip(flat_act[j]))])
+            if getattr(ref, "outer", None) is not None:
+                ao = np.clip(np.asarray(flat_act[j], np.float32), np.float32(ref.outer[0]), np.float32(ref.outer[1]))
+                ae = (np.float32(ref.low) + (ao - np.float32(ref.outer[0])) * np.float32((ref.high - ref.low) / (ref.outer[1] - ref.outer[0]))).astype(np.float32)
+            else:
+                ae = ref.clip(flat_act[j])
+            succ.reshape(-1)[j] = int(ref.P[sj, ref.a_index(ae)])
         succ_obs = np.eye(ref.nS, dtype=np.float32)[succ]
         stateful = getattr(buf.states, "n", None) is not None
         if stateful:
@@ -275,16 +297,16 @@ def _algo(ctx, i, E, T):
     return cls(**kw), cls.__name__
 
 
-def _run_kind(ctx, kind, masks=False, stub=False, via_iteration=False, n=None):
+def _run_kind(ctx, kind, masks=False, stub=False, via_iteration=False, n=None, rescale=False):
     from lerax.policy import MLPActorCriticPolicy
 
     n = n or ctx.n(10, 60)
     for i in range(n):
-        env, ref, tabs, tl = _build(ctx, i, kind, masks=masks)
+        env, ref, tabs, tl = _build(ctx, i, kind, masks=masks, rescale=rescale)
         E = int(ctx.rng.integers(1, 5)) if not via_iteration else int(ctx.rng.integers(1, 4))
         T = int(ctx.rng.choice([1, 2, 5, 9, 16, 33, 64])) if not ctx.quick else int(ctx.rng.choice([1, 3, 8, 17, 32]))
         algo, aname = _algo(ctx, i, E, T)
-        info = {"algo": aname, "kind": kind, "E": E, "T": T, "tl": tl, "masks": masks, "stub": stub, "i": i}
+        info = {"algo": aname, "kind": kind, "E": E, "T": T, "tl": tl, "masks": masks, "stub": stub, "i": i, "rescale_action": rescale}
         try:
             if stub:
                 from vlib.stubs import CountingACPolicy
@@ -308,6 +330,9 @@ def run_unit(name, ctx):
         _run_kind(ctx, "discrete", masks=True)
     elif name == "box":
         _run_kind(ctx, "box")
+        ctx.require("samples_needing_clipping", 5)
+    elif name == "box_rescaled":
+        _run_kind(ctx, "box", rescale=True, n=ctx.n(6, 40))
         ctx.require("samples_needing_clipping", 5)
     elif name == "multibinary":
         _run_kind(ctx, "multibinary", n=ctx.n(6, 30))
